@@ -279,6 +279,55 @@ def e2e_case(case):
                 s.fail('newsa-encr', f'NEWSA cipher {r["crypt"]}, chosen {cexp["encr"]}')
             if 'encr' not in cexp and r['crypt'] is not None:
                 s.fail('newsa-encr-for-ah', 'an AH SA was installed with a cipher')
+    then = case.get('then')
+    if then and not fails:
+        # a second CHILD_SA through CREATE_CHILD_SA, asked for by either end, optionally while the answering end has a request of
+        # its own outstanding: now the Diffie-Hellman groups of the entry are part of the policy ("exactly one transform of each
+        # type the local policy requires"); the policies are read from the configuration text
+        asker = then.get('by', first)
+        answerer = 'b' if asker == 'a' else 'a'
+        k2 = then.get('entry', 1) % len(cfg['protect'])
+        e2 = cfg['protect'][k2]
+        n_before = len(ob.children)
+        if then.get('busy'):
+            s.apply(['dpd', answerer, 0])                 # stays in flight: the answerer is in DPD_REQ_SENT
+            s.apply(['acquire', asker, k2, 2])
+            reqs = [d for d in s.w.inflight if d.sender == asker and d.data[18] == 36]
+            if reqs:
+                s.deliver(reqs[0], op=['deliver', 0])
+        else:
+            s.apply(['acquire', asker, k2, 2])
+        s.flush()
+        s.drain(settle=False)
+        ob = s.observer()
+        new = ob.children[n_before:]
+        want2 = {'integ': gen.first_common(e2['integ_' + answerer], e2['integ_' + asker])}
+        if e2['ipsec_proto'] == 'esp':
+            want2['encr'] = gen.first_common(e2['encr_' + answerer], e2['encr_' + asker])
+        if e2['dh_' + answerer]:
+            want2['dh'] = gen.first_common(e2['dh_' + answerer], e2['dh_' + asker])
+        info['second_child'] = True
+        if None in want2.values():
+            if new:
+                s.fail('child-sa-despite-disjoint-offers:create_child_sa', f'the entry\'s proposals share no '
+                       f'{[k for k, v in want2.items() if v is None]} but a CHILD_SA was negotiated through CREATE_CHILD_SA')
+        elif new:
+            c2 = new[-1]
+            tr2 = {t['type']: (t['id'], t.get('keylen')) for t in c2['prop']['transforms']}
+            w2 = {3: (NAME_INTEG[want2['integ']], None), 5: (0, None)}
+            if 'encr' in want2:
+                w2[1] = ENCR_ID[want2['encr']]
+            if 'dh' in want2:
+                w2[4] = (int(want2['dh']), None)
+            if tr2 != w2 or len(tr2) != len(c2['prop']['transforms']):
+                s.fail('child-suite:create_child_sa' + (':busy' if then.get('busy') else ''),
+                       f'CHILD_SA suite chosen in CREATE_CHILD_SA {c2["prop"]["transforms"]}; the answerer\'s policy and the offer give {w2}')
+            if ('dh' in want2) != bool(c2['pfs']):
+                s.fail('child-pfs:create_child_sa', f'the answerer\'s entry {"requires" if "dh" in want2 else "has no"} Diffie-Hellman '
+                                                    f'group but the CHILD_SA was {"" if c2["pfs"] else "not "}keyed with a fresh exchange')
+        else:
+            s.fail('compatible-child-not-negotiated:create_child_sa', 'compatible CHILD_SA offers did not lead to a CHILD_SA through '
+                                                                      'CREATE_CHILD_SA' + (' while the answerer was busy' if then.get('busy') else ''))
     return fails, info, s
 
 
@@ -427,6 +476,8 @@ def body(case, stats):
     if case['kind'] == 'e2e':
         differ = ike['encr_a'] != ike['encr_b'] or ike['integ_a'] != ike['integ_b'] or ike['prf_a'] != ike['prf_b'] or ike['dh_a'] != ike['dh_b']
         kl = ['e2e', 'e2e:ike-compatible' if info.get('ike_ok') else 'e2e:ike-disjoint', 'e2e:child' if info.get('children') else 'e2e:no-child']
+        if info.get('second_child'):
+            kl.append('e2e:second-child-through-create_child_sa' + (':answerer-busy' if case['then'].get('busy') else ''))
         stats.case(common.jhash([ike, [(e['encr_a'], e['encr_b'], e['integ_a'], e['integ_b'], e['ipsec_proto']) for e in cfg['protect']],
                                  case.get('first')]), nontrivial=differ, klass=kl,
                    sample={'ike': ike, 'first': case.get('first'), 'disjoint': case.get('disjoint')})
@@ -463,7 +514,18 @@ def cases(draw):
             cut = draw(st.integers(1, len(uni) - 1))
             perm = list(draw(st.permutations(uni)))
             tgt[ty + '_a'], tgt[ty + '_b'] = perm[:cut], perm[cut:]
-        return {'kind': 'e2e', 'cfg': cfg, 'first': first, 'entry': 0, 'disjoint': disjoint}
+        then = None
+        if draw(st.booleans()):
+            then = {'by': draw(st.sampled_from(['a', 'b'])), 'entry': draw(st.integers(0, 1)), 'busy': draw(st.booleans())}
+            e2 = cfg['protect'][then['entry'] % len(cfg['protect'])]
+            pfs = draw(st.sampled_from(['as-is', 'both', 'both-mixed', 'answerer-only']))
+            if pfs == 'both':
+                e2['dh_a'], e2['dh_b'] = ['19'], ['19']
+            elif pfs == 'both-mixed':
+                e2['dh_a'], e2['dh_b'] = ['19', '20'], ['20', '19']
+            elif pfs == 'answerer-only':
+                e2['dh_a'], e2['dh_b'] = (['19'], []) if then['by'] == 'b' else ([], ['19'])
+        return {'kind': 'e2e', 'cfg': cfg, 'first': first, 'entry': 0, 'disjoint': disjoint, 'then': then}
     if kind == 'tamper':
         stage = draw(st.sampled_from(STAGES))
         if stage == 'child':
